@@ -123,6 +123,24 @@ def check_instance(ctx, info, cyclic, strict=False):
             ctx.report(f"{name} returned {len(routes)} routes but the largest set of pairwise incompatible elements has {len(anti)}", rep); return
     ctx.count("E2_cover_certificate", "certified_optimal")
     opt = len(routes)
+    if not cyclic and not node:
+        # the same certificate decided by the EXTRACTED VERIFIED checker Cover.certificate_ok (theorem
+        # C09_checked_certificate_proves_the_optimum): cover = the implementation's paths in the s-t graph, antichain = A
+        try:
+            st = fp.stDAG(G, additional_starts=info["starts"], additional_ends=info["ends"])
+            names = list(st.nodes()); ids = {v: i for i, v in enumerate(names)}
+            E_ = list(st.edges()); ign = set(map(tuple, info["ignore"])) | set(st.source_sink_edges)
+            W = [[ids[u], ids[v], 0 if (u, v) in ign else 1] for u, v in E_]
+            Pt = [[1, len(r) + 2, [ids[st.source]] + [ids[x] for x in r] + [ids[st.sink]]] for r in routes]
+            req = "cert " + common.toks(len(names), [ids[v] for v in names], len(E_), [[ids[u], ids[v]] for u, v in E_], ids[st.source], ids[st.sink],
+                                        len(W), W, len(anti), [[ids[u], ids[v]] for u, v in anti], len(Pt), Pt)
+            out = ctx.model.run([req])[0].split()
+            if out and out[0] == "OK" and out[1] == "1":
+                ctx.count("E2_cover_certificate", "optimum_proved_by_verified_checker")
+            else:
+                ctx.report(f"{name}: the cover/antichain certificate is rejected by the verified checker certificate_ok: {' '.join(out)[:80]}", rep, concrete=False)
+        except Exception as e:
+            ctx.report(f"{name}: verified certificate check crashed: {e!r}", rep, concrete=False)
     if m.get_objective_value() != opt:
         ctx.report(f"{name}.get_objective_value() = {m.get_objective_value()} != {opt}", rep); return
     # width of the s-t graph classes, ignored edges passed together with the synthetic edges
